@@ -9,8 +9,8 @@
 //!
 //! Invariant checked: every `swap` access (the collector's read-and-reset of a shard's sum and
 //! buckets) is ordered by happens-before with every access to the same location by another thread;
-//! for earlier accesses the order must already be established when the swapping thread passed its
-//! gate (its latest successful compare-exchange in the same operation: the count hand-off).
+//! for earlier accesses the order must already be established *before* the swap executes (the
+//! swapping thread's clock without the swap's own acquire join), i.e. through the preceding hand-off.
 
 use std::collections::HashMap;
 use std::sync::atomic::Ordering;
@@ -35,8 +35,7 @@ fn rel(o: Ordering) -> bool {
 }
 
 struct Access {
-    /// For a swap: the accessing thread's clock at its most recent successful compare-exchange in
-    /// the same operation (the "gate" that told it the location is quiescent), if there is one.
+    /// For a swap: the accessing thread's clock just before the swap (without the swap's own acquire join).
     gate: Option<VC>,
     thread: usize,
     stamp: u64, // the accessing thread's own clock component at the access
@@ -58,8 +57,6 @@ pub fn check(trace: &[TraceEv], nthreads: usize) -> HbReport {
     let mut lockclk: HashMap<usize, VC> = HashMap::new();
     let mut accesses: HashMap<usize, Vec<Access>> = HashMap::new();
     let mut swapped: Vec<usize> = vec![];
-    // per thread: (operation index, clock) at its latest successful compare-exchange
-    let mut gates: Vec<Option<(Option<usize>, VC)>> = vec![None; nthreads];
 
     for (ti, ev) in trace.iter().enumerate() {
         let Ann::Sync(e) = &ev.ann else { continue };
@@ -81,6 +78,7 @@ pub fn check(trace: &[TraceEv], nthreads: usize) -> HbReport {
             _ => {}
         }
         let Some(o) = &ev.outcome else { continue };
+        let pre_clock = clocks[t].clone();
         match e.kind {
             Kind::Load => {
                 if acq(e.success) {
@@ -134,13 +132,7 @@ pub fn check(trace: &[TraceEv], nthreads: usize) -> HbReport {
         if e.kind == Kind::Swap && !swapped.contains(&e.addr) {
             swapped.push(e.addr);
         }
-        if e.kind == Kind::CasWeak && o.ok {
-            gates[t] = Some((ev.op, clocks[t].clone()));
-        }
-        let gate = match (&gates[t], e.kind) {
-            (Some((op, c)), Kind::Swap) if *op == ev.op => Some(c.clone()),
-            _ => None,
-        };
+        let gate = if e.kind == Kind::Swap { Some(pre_clock) } else { None };
         accesses.entry(e.addr).or_default().push(Access { gate, thread: t, stamp: clocks[t][t], clock: clocks[t].clone(), kind: e.kind, trace_idx: ti });
     }
 
@@ -157,10 +149,11 @@ pub fn check(trace: &[TraceEv], nthreads: usize) -> HbReport {
                 }
                 rep.pairs_checked += 1;
                 // a precedes b in the (sequentially consistent) trace; ordered iff a happens-before b.
-                // A swap that follows a successful compare-exchange of the same operation relies on
-                // that compare-exchange (the hand-off through the count) to have made the location
-                // quiescent: the ordering must already exist at that gate, not only at the swap
-                // itself, which would also "synchronise" with whatever it happens to read.
+                // A swap (the collector's read-and-reset) is only safe if the location is already
+                // quiescent when it executes: the ordering must exist *before* the swap, through
+                // the hand-off that preceded it (the count), not only through the swap's own acquire
+                // read, which "synchronises" with whatever it happens to read in this execution and
+                // guarantees nothing about executions in which the other write lands later.
                 let bclock = match (&b.gate, b.kind) {
                     (Some(g), Kind::Swap) => g,
                     _ => &b.clock,
